@@ -226,3 +226,19 @@ func c17R5(c *Ctx) {
 func c16R7(c *Ctx) {
 	shareRule(c, "C10.R1b", "C16.R7", c10R1b, "every error obtained on the prepare path is tested and propagated (only the tabled duplicate-connection idiom is tolerated): a swallowed duplicate-node / duplicate-connection error makes the graph depend on which of two colliding paths map iteration visits first")
 }
+
+// C19: a `!wait-optional` reference to the workflow input is decided in the first round of the run loop together with
+// the node that contains it; only the completion dependency makes the containing node wait for that decision.
+func c19R6(c *Ctx) {
+	shareRule(c, "C10.R2", "C19.R6", c10R2, "the dependency kind of an optional reference is the constant its tag prescribes (CompletionAndDependency for `!wait-optional`), whatever the expression refers to: with a plain optional edge a reference to `$.input.x` is evaluated in the same round as the stage input that contains it, in map order, and the step sees its input with or without the field at random")
+}
+
+// C17: the run data handed to Start is one object for all (possibly overlapping) runs.
+func c17R6(c *Ctx) {
+	shareRule(c, "C14.R10", "C17.R6", c14R10, "Start writes into no container it received: overlapping runs of one prepared workflow (and the parallel items of a loop) get the same run data object, so a write there is an unsynchronised access to shared memory")
+}
+
+// C04: a step is enabled only by the verdict it was given.
+func c04R10(c *Ctx) {
+	shareRule(c, "C12.R20", "C04.R10", c12R20, "the `enabled` verdict of a step is recorded only while handling the enabling stage's input: code that takes the verdict as given while handling another stage's input (items arrived, so the loop is enabled) runs a step whose real verdict — `false` — is then refused as a second provision")
+}
